@@ -513,6 +513,99 @@ pub fn exec_special(ctx: &mut Ctx, ex: &mut Extra, hist: &mut Vec<String>, toks:
             }
             s
         }
+        "pvp" => {
+            // pvp <in1>|<in2>|... : the real `chess pvp` loop (game::player_vs_player) in a child process, the
+            // inputs on its stdin; its stdout (the board printed before every prompt, the final verdict) parsed.
+            // The loop never ends on end-of-input, so the child is killed once its output exceeds a cap
+            // ("runaway"): scripts are built to end in a mate.
+            use std::io::{Read, Write};
+            use std::process::{Command, Stdio};
+            let script = if toks.len() > 1 { toks[1] } else { "" };
+            let mut child = Command::new(std::env::current_exe().unwrap())
+                .arg("pvpchild")
+                .stdin(Stdio::piped())
+                .stdout(Stdio::piped())
+                .stderr(Stdio::null())
+                .spawn()
+                .expect("spawn pvp child");
+            {
+                let mut si = child.stdin.take().unwrap();
+                for l in script.split('|') {
+                    let _ = writeln!(si, "{}", l);
+                }
+            }
+            let mut so = child.stdout.take().unwrap();
+            let mut out: Vec<u8> = vec![];
+            let mut buf = [0u8; 65536];
+            let mut runaway = false;
+            loop {
+                match so.read(&mut buf) {
+                    Ok(0) | Err(_) => break,
+                    Ok(n) => {
+                        out.extend_from_slice(&buf[..n]);
+                        if out.len() > (1 << 20) {
+                            runaway = true;
+                            let _ = child.kill();
+                            break;
+                        }
+                    }
+                }
+            }
+            let status = child.wait().ok();
+            let text = String::from_utf8_lossy(&out).to_string();
+            let glyph = |ch: char| -> Option<char> {
+                Some(match ch {
+                    '♝' => 'B', '♚' => 'K', '♞' => 'N', '♟' => 'P', '♛' => 'Q', '♜' => 'R',
+                    '♗' => 'b', '♔' => 'k', '♘' => 'n', '♙' => 'p', '♕' => 'q', '♖' => 'r',
+                    '.' => '.',
+                    _ => return None,
+                })
+            };
+            let lines: Vec<&str> = text.lines().collect();
+            let mut boards: Vec<String> = vec![];
+            let mut end = if runaway { "runaway".to_string() } else { "eof".to_string() };
+            let mut i = 0;
+            let max_boards = script.split('|').count() + 1;
+            while i < lines.len() {
+                let l = lines[i];
+                if let Some(t) = l.strip_prefix("turn: ") {
+                    if i + 8 < lines.len() && boards.len() < max_boards {
+                        let mut rows: Vec<Vec<char>> = vec![];
+                        let mut ok = true;
+                        for r in 0..8 {
+                            let row: Vec<char> = lines[i + 1 + r].chars().filter_map(glyph).collect();
+                            if row.len() != 8 {
+                                ok = false;
+                            }
+                            rows.push(row);
+                        }
+                        if ok {
+                            let mut cells = String::new();
+                            for r in (0..8).rev() {
+                                for f in 0..8 {
+                                    cells.push(rows[r][f]);
+                                }
+                            }
+                            boards.push(format!("{}:{}", cells, if t.trim().to_lowercase().starts_with('w') { 'w' } else { 'b' }));
+                        } else {
+                            boards.push("unparsed".to_string());
+                        }
+                    }
+                    i += 9;
+                    continue;
+                }
+                if l == "checkmate!" || l == "stalemate!" || l == "draw!" {
+                    end = l.trim_end_matches('!').to_string();
+                }
+                i += 1;
+            }
+            if let Some(st) = status {
+                if !st.success() && !runaway {
+                    end = "crashed".to_string();
+                }
+            }
+            format!("pvp {} {}", end, boards.join(" "))
+        }
         "book" => {
             // book <from><to> ... : continuations offered after this line, sorted
             if ex.book.is_none() {
